@@ -115,7 +115,7 @@ impl<'a, 'b> B<'a, 'b> {
         for _ in 0..n {
             let cid = self.fresh();
             let name = format!("m{cid}");
-            let kind = if self.space.exotic { self.c.weighted(&[6, 2, 2, 1, 1, 1]) } else { 0 };
+            let kind = if self.space.exotic { self.c.weighted(&[6, 2, 2, 1, 1, 1, 1]) } else { 0 };
             match kind {
                 1 => {
                     // #[path] on a file-level declaration: relative to the directory of this file
@@ -153,6 +153,17 @@ impl<'a, 'b> B<'a, 'b> {
                     self.child_file(&d.clone(), &name, depth - 1);
                     self.next_decl = "cfg_if".into();
                     self.child_file(&d.clone(), &other, depth - 1);
+                }
+                6 => {
+                    // an inline module inside a cfg_if! branch that declares an out-of-line module
+                    let inner = format!("ci{cid}");
+                    content.push_str(&format!(
+                        "cfg_if::cfg_if! {{\n    if #[cfg(unix)] {{\n        mod {inner} {{\n            pub fn  in_cfg_if_{cid} ( ) {{ }}\n            mod {name};\n        }}\n    }}\n}}\n"
+                    ));
+                    let base = join(&d, &inner);
+                    self.label("cfg_if-inline-nesting");
+                    self.next_decl = "cfg_if".into();
+                    self.child_file(&base, &name, depth - 1);
                 }
                 4 => {
                     // cfg_attr(path): both the named file and the default location
@@ -254,6 +265,12 @@ pub fn gen_tree(c: &mut Choices<'_>, space: &TreeSpace) -> Tree {
     let depth = 1 + b.c.below(space.max_depth);
     b.module(root.clone(), d, depth, Role::Root, false);
     let skip_children = space.exclusions && b.c.chance(1, 12);
+    // an ignore entry that matches the entry point itself: the root stays as it is, its children
+    // are still formatted
+    if space.exclusions && b.c.chance(1, 10) {
+        b.ignore.push(root.clone());
+        b.labels.push("root-ignored".into());
+    }
     let mut cfg = String::new();
     let generated = b.labels.iter().any(|l| l == "generated");
     if generated {
@@ -288,7 +305,7 @@ impl Tree {
         self.files
             .iter()
             .filter(|f| match f.role {
-                Role::Root => true,
+                Role::Root => !self.labels.iter().any(|l| l == "root-ignored"),
                 Role::Module => !self.skip_children,
                 _ => false,
             })
